@@ -56,6 +56,9 @@ func TextConsumer() Consumer {
 		t := reflect.TypeOf(data)
 		if data != nil && t.Kind() == reflect.Ptr {
 			v := reflect.Indirect(reflect.ValueOf(data))
+			if !v.IsValid() {
+				return errors.New("nil destination for TextConsumer")
+			}
 			if t.Elem().Kind() == reflect.String {
 				v.SetString(string(b))
 				return nil
@@ -98,6 +101,9 @@ func TextProducer() Producer {
 		}
 
 		v := reflect.Indirect(reflect.ValueOf(data))
+		if !v.IsValid() {
+			return errors.New("nil data given to produce text from")
+		}
 		if t := v.Type(); t.Kind() == reflect.Struct || t.Kind() == reflect.Slice {
 			b, err := swag.WriteJSON(data)
 			if err != nil {
